@@ -385,10 +385,10 @@ func Verif_C05_jsonyaml() {
 		// the empty content: JSON `null`, YAML `null`; every field optional
 		var a, b verifYI16O
 		ej, ey, pj, py := verifYLoad("null", "null\n", nil, nil, &a, &b)
+		verifReach("y-top-level-null")
 		if verifYAgree("top-level null", ej, ey, pj, py) {
 			verifAssert(a == b, "JSON and YAML yield the same struct (top-level null)")
 		}
-		verifReach("y-top-level-null")
 		return
 	}
 	k := verifChoose("content", verifYContents)
